@@ -36,6 +36,12 @@ reg('C20', 'exhaustive enumeration of the layer-presence lattice against a refer
     'table and caller dictionary are compared after each case. Natural keys of the shipped tables × 2^3 caller layers add the un-injected view. Exhaustive for the stated finite domain.',
     'Built-in layers are exercised by swapping deep copies of DEFAULT_CONFIG/SYNTAX_CONFIG into emmet.config for one case (restored in finally); `type` is always explicit.')
 
+reg('C16', 'exhaustive string × position enumeration + Hypothesis token strings + mutation/truncation fuzzing of valid documents; oracle = totality and range well-formedness invariants',
+    'Every string of length ≤ 4 (quick) / ≤ 5 (thorough) over a 17-symbol HTML and a 19-symbol CSS alphabet is fed to scan, attributes, split_value, match, '
+    'balanced_outward and balanced_inward at every position −1..len+1; random token strings, ≤3-edit mutants and all truncations of valid documents go beyond the bound. '
+    'Checked: no exception, ranges inside the text, tag-shape/order of scanned tags, match == outward[0], strict nesting of outward entries, nesting of inward entries.',
+    'Non-termination would show as a CPU-time watchdog expiry (20 s); absence of violations beyond the enumerated length is sampled, not shown.')
+
 NOT_APPLICABLE = [
 ]
 
